@@ -42,6 +42,10 @@ def snap(obj, depth=0):
         return ('dict', type(obj).__name__, [(snap(k, depth + 1), snap(v, depth + 1)) for k, v in obj.items()])
     if isinstance(obj, (list, tuple)):
         return (type(obj).__name__, [snap(v, depth + 1) for v in obj])
+    if isinstance(obj, (set, frozenset)):
+        return (type(obj).__name__, sorted(repr(snap(v, depth + 1)) for v in obj))
+    if isinstance(obj, (bytearray, memoryview)):
+        return (type(obj).__name__, bytes(obj))
     if isinstance(obj, (np.generic,)):
         return ('npval', obj.dtype.str, obj.tobytes())
     if obj is None or isinstance(obj, (bool, int, float, complex, str, bytes)):
@@ -88,7 +92,7 @@ def diff_path(a, b, path=''):
 # ------------------------------------------------------------------------------------------------
 # input layouts
 LAYOUTS_1D = ('c', 'strided', 'col', 'row', 'colstrided', 'list', 'f32', 'int', 'neg', 'ro')
-LAYOUTS_2D = ('c', 'f', 'strided', 'list', 'f32', 'int', 'mn1', 'ro')
+LAYOUTS_2D = ('c', 'f', 'strided', 'list', 'f32', 'int', 'mn1', 'ro', 'T', 'neg2')
 
 
 class SubArray(np.ndarray):
@@ -164,6 +168,10 @@ def lay2(vals, layout):
         return np.round(v).astype(np.int64)
     if layout == 'mn1':
         return v.copy().reshape(v.shape + (1,))
+    if layout == 'T':
+        return np.ascontiguousarray(v.T).T          # a transposed view of a C array
+    if layout == 'neg2':
+        return v[::-1, ::-1].copy()[::-1, ::-1]     # negative strides on both axes
     if layout == 'bool':
         return v > 0
     if layout == 'subclass':
@@ -188,7 +196,8 @@ CLASSIFICATION = ('dietrich', 'golotvin', 'std_distribution', 'fastchrom', 'cwt_
 
 # data kinds chosen to reach rarely taken, data-dependent branches of the bodies (early returns when nothing /
 # everything is classified as baseline, loops that stop at once, empty peak lists, ...)
-Y_KINDS = ('line', 'quad', 'const', 'zeros', 'sine', 'blank', 'blank', 'step', 'spikes', 'allpeaks', 'negative', 'peaks')
+Y_KINDS = ('line', 'quad', 'const', 'zeros', 'sine', 'blank', 'blank', 'step', 'spikes', 'allpeaks', 'negative', 'tiny', 'huge',
+           'peaks')
 # extreme option values, applied when the method has the parameter
 BRANCH_VALUES = {
     'num_std': [0.0, 1e-3, 10.0, 1e3], 'threshold': [1e-12, 1e12], 'min_length': [1, 2, 10 ** 6],
@@ -241,6 +250,10 @@ def shape_y(kind, y, t, rs):
         return 5.0 + 40.0 * np.abs(np.sin(25.0 * t)) + rs.standard_normal(y.shape)
     if kind == 'negative':
         return -y
+    if kind == 'tiny':
+        return y * 1e-300
+    if kind == 'huge':
+        return y * 1e300
     return y
 
 
@@ -290,6 +303,39 @@ def nested_window_kwargs(sel, n):
         {'window_tol': np.array(1e300), 'min_half_window': np.array(big, dtype=np.int64)},
     ]
     return v[sel % len(v)]
+
+
+NO_FORM = object()
+CONTAINER_FORMS = ('scalar', 'tuple1', 'list1', 'list2', 'tuple2', 'arr1', 'arr2', 'empty_list')
+
+
+def apply_form(base, form):
+    """the value `base` of a scalar-or-sequence / per-axis parameter in another container form"""
+    if base is None or isinstance(base, (str, bool, np.ndarray)) or callable(base):
+        return NO_FORM
+    elems = list(base) if isinstance(base, (tuple, list)) else [base]
+    if not elems:
+        return NO_FORM
+    first = elems[0]
+    second = elems[1] if len(elems) > 1 else (dict(first) if isinstance(first, dict) else first)
+    numeric = all(isinstance(v, (int, float)) and not isinstance(v, bool) for v in (first, second))
+    if form == 'scalar':
+        return first
+    if form == 'tuple1':
+        return (first,)
+    if form == 'list1':
+        return [first]
+    if form == 'list2':
+        return [first, second]
+    if form == 'tuple2':
+        return (first, second)
+    if form == 'arr1':
+        return np.array([first]) if numeric else NO_FORM
+    if form == 'arr2':
+        return np.array([first, second]) if numeric else NO_FORM
+    if form == 'empty_list':
+        return []
+    return NO_FORM
 
 
 def sig_params(name, two_d):
@@ -446,8 +492,10 @@ def materialise(c):
     for p, how in c['args'].items():
         if p == 'weights':
             wv = wvals(shape)
-            if how in ('bool', 'boolstrided'):
+            if how in ('bool', 'boolstrided', 'boolcol'):
                 wv = np.where(wv > 0.35, 1.0, -1.0)
+            if how in ('tinyw', 'hugew'):
+                wv, how = wv * (1e-300 if how == 'tinyw' else 1e300), 'c'
             kw[p] = arr(wv, how)
         elif p == 'alpha':
             kw[p] = arr(0.5 + 0.5 * rs.random_sample(shape), how if how != 'int' else 'c')
@@ -498,6 +546,14 @@ def materialise(c):
             if how != 'plain':
                 d = nested_window_kwargs(c.get('winsel', c.get('optsel', 0) // 7), n)
             kw[p] = d
+    for p, form in (c.get('forms') or {}).items():
+        base = kw.get(p)
+        if base is None:
+            dflt = sig_params(name, two_d)[p].default
+            base = dflt if dflt is not None and dflt is not inspect.Parameter.empty else (M.PARAM_VALUES.get(p) or [None])[0]
+        val = apply_form(base, form)
+        if val is not NO_FORM:
+            kw[p] = val
     if name == 'interp_pts':
         kw = {k: v for k, v in kw.items() if v is not None}
     return ctor, kw, data
@@ -559,6 +615,10 @@ def call(c, objs=None):
     from pybaselines import Baseline, Baseline2D
     ctor, kw, data = objs if objs is not None else materialise(c)
     owned = {'data': data}
+    if c.get('history'):
+        d0 = np.asarray(data, dtype=float)
+        bad_data = np.concatenate([d0, d0[..., :3]], axis=-1)     # wrong length on the last axis
+        owned['history.bad_data'] = bad_data
     owned.update({'ctor.' + k: v for k, v in ctor.items()})
     owned.update({'arg.' + k: v for k, v in kw.items()})
     before = {k: snap(v) for k, v in owned.items()}
@@ -577,6 +637,21 @@ def call(c, objs=None):
                 fitter = (Baseline2D if c['two_d'] else Baseline)(**ctor)
                 if c.get('solver'):
                     fitter.banded_solver = c['solver']     # public configuration: which banded solver is used
+                for step in c.get('history') or ():
+                    # earlier, REJECTED calls on the same object
+                    try:
+                        if step == 'badlen':
+                            getattr(fitter, c['method'])(bad_data, **kw)
+                        elif step == 'badarg':
+                            getattr(fitter, c['method'])(data, **dict(kw, no_such_option=1))
+                        elif step == 'inject':
+                            und = _inject(1)
+                            try:
+                                getattr(fitter, c['method'])(data, **kw)
+                            finally:
+                                und()
+                    except Exception:   # noqa
+                        pass
                 res = getattr(fitter, c['method'])(data, **kw)
                 if c.get('twice'):
                     res = getattr(fitter, c['method'])(data, **kw)
@@ -597,12 +672,18 @@ def call(c, objs=None):
 
 
 def _ids(obj):
+    """the STRUCTURE of caller-owned containers: type, length and the identity of every mutable element, recursively
+    (a list that grows, an element that is replaced by an equal copy, a nested dict that is swapped)"""
     if isinstance(obj, dict):
-        return ('d', [(k, _ids(v)) for k, v in obj.items()])
-    if isinstance(obj, list) and obj and not isinstance(obj[0], (float, int, list)):
-        return ('l', [_ids(v) for v in obj])
+        return ('d', id(obj), [(repr(k), _ids(v)) for k, v in obj.items()])
+    if isinstance(obj, (list, tuple)):
+        if len(obj) > 64 and all(isinstance(v, (float, int)) for v in obj):
+            return (type(obj).__name__, id(obj) if isinstance(obj, list) else None, len(obj))
+        return (type(obj).__name__, id(obj) if isinstance(obj, list) else None, [_ids(v) for v in obj])
+    if isinstance(obj, (set, bytearray)):
+        return (type(obj).__name__, id(obj), len(obj))
     if isinstance(obj, np.ndarray):
-        return id(obj)
+        return ('a', id(obj))
     return None
 
 
@@ -629,7 +710,8 @@ def check_case(ctx, c, kind):
     argkey = ','.join(sorted(p.split('[')[0] for p, _ in problems))
     dim = '2d' if c['two_d'] else '1d'
     ctx.case(('oracle', repr(sorted(c.items(), key=str))), nontrivial=bool(c['args']) or c['data'] != 'c' or c['x'] != 'sorted' or bool(c.get('extra'))
-             or bool(c.get('solver')) or c.get('ykind', 'peaks') != 'peaks' or bool(c.get('functional')),
+             or bool(c.get('solver')) or c.get('ykind', 'peaks') != 'peaks' or bool(c.get('functional'))
+             or bool(c.get('forms')) or bool(c.get('history')),
              kind=f'{kind}:{"raises" if outcome != "ok" else "returns"}')
     if problems:
         ctx.fail(f'mutated:{dim}:{c["method"]}:{argkey}',
@@ -925,8 +1007,8 @@ def seq_param_cases(ctx):
 # ------------------------------------------------------------------------------------------------
 # fixed, enumerated grids (run first; random draws only on top)
 W_FORMS_1D = ('c', 'strided', 'neg', 'col', 'row', 'colstrided', 'subclass', 'subcol', 'masked', 'list', 'int', 'f32',
-              'bool', 'boolstrided', 'boolcol', 'ro')
-W_FORMS_2D = ('c', 'f', 'strided', 'mn1', 'subclass', 'masked', 'list', 'int', 'f32', 'bool', 'ro')
+              'bool', 'boolstrided', 'boolcol', 'ro', 'tinyw', 'hugew')
+W_FORMS_2D = ('c', 'f', 'T', 'neg2', 'strided', 'mn1', 'subclass', 'masked', 'list', 'int', 'f32', 'bool', 'ro', 'tinyw', 'hugew')
 # options that make a body write into / re-use its weight array
 W_WRITE_OPTS = ({}, {'mask_initial_peaks': True}, {'weights_as_mask': True}, {'use_original': True})
 
@@ -972,7 +1054,7 @@ def param_grid_cases():
                                and not isinstance(list(v.values())[0], tuple)]
             for vi, var in enumerate(variants):
                 for solver, xmode in ((None, 'sorted'), (3, 'sorted'), (4, 'sorted'), (1, 'sorted'), (None, 'none')):
-                    if (two_d and solver in (1, 3)) or (solver == 1 and vi):
+                    if (two_d and solver in (1, 3)) or (solver == 1 and vi) or (solver == 4 and vi and not two_d):
                         continue
                     c = {'two_d': two_d, 'method': name, 'seed': 5000 + 100 * mi + vi, 'mode': 'pgrid',
                          'n': 40 if not two_d else 12, 'm': 11, 'data': 'c', 'x': xmode, 'xlay': 'c', 'args': {},
@@ -1033,6 +1115,58 @@ def nested_grid_cases():
     return cases
 
 
+def form_grid_cases():
+    """every method x every scalar / dict / tuple valued parameter x every container form (scalar, 1-tuple, list of one,
+    list of two, 2-tuple, ndarray of one / two, empty list): sequence-or-scalar and per-axis parameters in all the ways a
+    caller may write them (most combinations are rejected up front; the arguments must be unchanged either way)"""
+    cases = []
+    for two_d in (False, True):
+        for mi, name in enumerate(M.method_names(two_d)):
+            params = sig_params(name, two_d)
+            kw0 = M.call_kwargs(name, two_d)
+            for pi, (p, par) in enumerate(params.items()):
+                if p in ('self', 'data', 'weights', 'alpha', 'baseline_points', 'method', 'kwargs') or par.kind == par.VAR_KEYWORD:
+                    continue
+                base = kw0.get(p, par.default if par.default is not inspect.Parameter.empty else None)
+                if base is None:
+                    base = (M.PARAM_VALUES.get(p) or [None])[0]
+                    if p in ('method_kwargs', 'pad_kwargs', 'window_kwargs'):
+                        base = {}
+                for fi, form in enumerate(CONTAINER_FORMS):
+                    if apply_form(base, form) is NO_FORM:
+                        continue
+                    c = {'two_d': two_d, 'method': name, 'seed': 20000 + 30 * mi + pi, 'mode': 'fgrid',
+                         'n': 40 if not two_d else 12, 'm': 11, 'data': 'c', 'x': 'sorted', 'xlay': 'c', 'args': {},
+                         'raise_at': None, 'extra': {}, 'ykind': 'peaks', 'optsel': 0, 'solver': None, 'forms': {p: form}}
+                    if name == 'interp_pts':
+                        c['args'] = {'baseline_points': 'c'}
+                    cases.append(c)
+                    if name == 'individual_axes' and p == 'method_kwargs':
+                        for ax in (0, 1, [1, 0], (0, 1), [0], np.int64(1)):
+                            c2 = dict(c, extra={'axes': ax if not isinstance(ax, np.integer) else int(ax)})
+                            cases.append(c2)
+    return cases
+
+
+def history_grid_cases():
+    """every method on an object with a HISTORY: a call rejected up front (data of the wrong length), a call that fails deep
+    inside (injected failure of the convergence measure), then the valid call; all arguments of all three calls are
+    snapshotted"""
+    cases = []
+    for two_d in (False, True):
+        for mi, name in enumerate(M.method_names(two_d)):
+            params = sig_params(name, two_d)
+            c = {'two_d': two_d, 'method': name, 'seed': 30000 + mi, 'mode': 'hgrid', 'n': 40 if not two_d else 12, 'm': 11,
+                 'data': 'c', 'x': 'sorted', 'xlay': 'c', 'args': {}, 'raise_at': None, 'extra': {}, 'ykind': 'peaks',
+                 'optsel': 0, 'solver': None, 'history': ['badlen', 'inject', 'badarg']}
+            if 'weights' in params:
+                c['args']['weights'] = 'c'
+            if name == 'interp_pts':
+                c['args']['baseline_points'] = 'c'
+            cases.append(c)
+    return cases
+
+
 def setup_grid(ctx, wcases):
     """the setup boundary itself, enumerated: every _setup_* entry (1-D and 2-D) x copy_weights x x sorted/unsorted x
     every weight form, called directly on a fitter object; observed np.shares_memory against the caller's weights"""
@@ -1065,6 +1199,8 @@ def setup_grid(ctx, wcases):
                             w = (lay2 if two_d else lay1)(np.where(wv > 0.3, 1.0, -1.0), form if not two_d or form == 'bool' else 'bool')
                         elif form == 'int':
                             w = (lay2 if two_d else lay1)(1 + np.round(2 * wv), 'int')
+                        elif form in ('tinyw', 'hugew'):
+                            w = (lay2 if two_d else lay1)(wv * (1e-300 if form == 'tinyw' else 1e300), 'c')
                         else:
                             w = (lay2 if two_d else lay1)(wv, form)
                         fitter = (Baseline2D if two_d else Baseline)(**ctor)
@@ -1184,7 +1320,8 @@ def search(ctx, budget):
     n0 = len(ctx.violations) + len(ctx.known_hit)
     # fixed, enumerated grids first
     for kind, cases in (('oracle:weight-grid', weight_grid_cases()), ('oracle:option-solver-grid', param_grid_cases()),
-                        ('oracle:branch-grid', branch_grid_cases()), ('oracle:nested-option-grid', nested_grid_cases())):
+                        ('oracle:branch-grid', branch_grid_cases()), ('oracle:nested-option-grid', nested_grid_cases()),
+                        ('oracle:container-form-grid', form_grid_cases()), ('oracle:history-grid', history_grid_cases())):
         for c in cases:
             try:
                 check_case(ctx, c, kind)
